@@ -450,10 +450,11 @@ static const size_t NROUTES = sizeof(ROUTES) / sizeof(ROUTES[0]);
 struct Placed {
     vf::GuardArena a8, z8, a16, z16, a32, z32;
     In in;
+    int align = -1;  // >= 0: the exact-size copies start `align` units past a 16-byte boundary (see GuardArena::place_aligned)
     void set8(const std::string &s)
     {
         in = In();
-        in.p8 = a8.place(s.data(), s.size());
+        in.p8 = align < 0 ? a8.place(s.data(), s.size()) : a8.place_aligned(s.data(), s.size(), (unsigned)align & 15);
         in.n8 = s.size();
         std::string z = s;
         z.push_back(0);
@@ -462,7 +463,7 @@ struct Placed {
     void set16(const std::u16string &s)
     {
         in = In();
-        in.p16 = a16.place(s.data(), s.size());
+        in.p16 = align < 0 ? a16.place(s.data(), s.size()) : a16.place_aligned(s.data(), s.size(), ((unsigned)align * 2) & 15);
         in.n16 = s.size();
         std::u16string z = s;
         z.push_back(0);
@@ -471,7 +472,7 @@ struct Placed {
     void set32(const std::u32string &s)
     {
         in = In();
-        in.p32 = a32.place(s.data(), s.size());
+        in.p32 = align < 0 ? a32.place(s.data(), s.size()) : a32.place_aligned(s.data(), s.size(), ((unsigned)align * 4) & 15);
         in.n32 = s.size();
         std::u32string z = s;
         z.push_back(0);
